@@ -1400,7 +1400,7 @@ def _cases(ctx):
     else:
         yield from apply_pool_cases(ctx, 'threads', 3, iface_specs(3), ks, cs_threads, 'full', 'api:apply_pool-threads', rot)
         yield from apply_pool_cases(ctx, 'threads', 4, iface_specs(4), ks, cs_threads, 'light', 'api:apply_pool-threads', rot)
-        yield from apply_pool_cases(ctx, 'threads', 5, rotate(iface_specs(5), 6), ks, cs_threads, 'light', 'api:apply_pool-threads', rot)
+        yield from apply_pool_cases(ctx, 'threads', 5, rotate(iface_specs(5), 4), ks, cs_threads, 'light', 'api:apply_pool-threads', rot)
     # apply_pool, process pools (chunking matters here), every feasible schedule of the chunks
     pk = [1, 2, 3, 8] if quick else ks
     for n in ((0, 1, 2, 3) if quick else (0, 1, 2, 3, 4)):
